@@ -70,7 +70,7 @@ def observe(job):
     o = concretise(case, member, idx, route)
     wd = os.path.join(scratch(), "c01", f"w{idx}{route}")
     cls_rec = {"id": case["c"], "type": member["type"], "mixins": member["mixins"]}
-    meta = {"idx": idx, "route": route, "member": {k: member[k] for k in ("family", "target", "auth", "cls")}, "c": case["c"], "x": x}
+    meta = {"idx": idx, "route": route, "twin": member.get("twin", "self"), "member": {k: member[k] for k in ("family", "revision", "target", "auth", "cls")}, "c": case["c"], "x": x}
     try:
         mbi, _ = (B.build_config if route == "cfg" else B.build_ctor)(member, o, wd)
         data = mbi.export()
@@ -95,6 +95,8 @@ def observe(job):
          "relhdr": data.rfind(struct.pack("<3I", MARKER, 0, len(o["relocs"]))) if o.get("relocs") else -1,
          "apptail": data.find(apad[64:]) if len(apad) >= 80 else -1},
     ]
+    if o.get("relocs"):
+        h.append(reloc_event(data, o))
     # ---- parse trace
     p = [head]
     parsed = None
@@ -113,6 +115,19 @@ def observe(job):
             p.append(reexport_cfg(parsed, member, o, data, wd))
     meta["len"] = len(data)
     return {"h": {"cls": cls_rec, "x": x, "ev": h}, "p": {"cls": cls_rec, "x": x, "ev": p}, "meta": meta}
+
+
+def reloc_event(data, o):
+    """The relocation table as the ROM would read it: header found by its marker, entries right in front of it (struct only)."""
+    n = len(o["relocs"])
+    at = data.rfind(struct.pack("<3I", MARKER, 0, n))
+    if at < 16 * n:
+        return {"ev": "ExpReloc", "found": False, "ptr": -1, "hdrAt": -1, "ents": [], "imgAt": [], "dstOk": False}
+    (ptr,) = struct.unpack_from("<I", data, at + 12)
+    ents = [struct.unpack_from("<4I", data, at - 16 * (n - i)) for i in range(n)]
+    small = lambda z: z if z < 2**31 else -1  # noqa: E731
+    return {"ev": "ExpReloc", "found": True, "ptr": small(ptr), "hdrAt": at, "ents": [[small(e[0]), small(e[2]), small(e[3])] for e in ents],
+            "imgAt": [data.find(img) for img, _ in o["relocs"]], "dstOk": all(e[1] == dst for e, (_, dst) in zip(ents, o["relocs"]))}
 
 
 def parse_events(q, member, o, data, apad):
@@ -143,7 +158,9 @@ def parse_events(q, member, o, data, apad):
     cb = getattr(q, "cert_block", None)
     if cb is not None:
         exp = cb.export()
-        cert_eq = any(data[at:at + len(exp)] == exp for at in B.find_cert_headers(data))
+        # v1 header word 20..23 (image length) is derived at export time and not a setting: masked
+        mask = (lambda b: b[:20] + bytes(4) + b[24:]) if B.has(member, "CertBlockV1") else (lambda b: b)
+        cert_eq = any(mask(data[at:at + len(exp)]) == mask(exp) for at in B.find_cert_headers(data))
     ev.append({"ev": "ParseMisc", "fwVer": int(getattr(q, "firmware_version", 0) or 0) if man is not None else 0, "digest": dig, "certEq": cert_eq,
                "ivEq": bool(o.get("iv")) and getattr(q, "ctr_init_vector", None) == o.get("iv")})
     return ev
@@ -185,9 +202,21 @@ def reexport_cfg(parsed, member, o, data, wd):
 CLAUSE = {"Exp": "HeaderDescribes", "Par": "RoundTrip", "ReO": "ReExport", "ReC": "ReExport", "Bui": "Build"}
 
 
-def features(x):
+def features(x, twin="self"):
     ln = "lt64" if x["appLen"] < 64 else "eq64" if x["appLen"] == 64 else "gt64"
-    return f"tz={x['tz']},relocs={len(x['relocs'])},tail={x['tail']},len={ln},ks={int(x['ks'])},dig={x['digestOpt']}"
+    return f"tz={x['tz']},relocs={len(x['relocs'])},tail={x['tail']},len={ln},ks={int(x['ks'])},dig={x['digestOpt']},twin={twin}"
+
+
+def twin_of(member, mem):
+    """Input feature read from the database: the FIRST class of the family's `images` table with the same image type word.
+    'self' if that is this class, else the data mixins it lacks (-) / has in addition (+): an image of this class cannot be told from it by its type."""
+    same = [m for m in mem if m["family"] == member["family"] and m["revision"] == member["revision"] and m["type"] == member["type"]]
+    first = same[0]
+    if first["cls"] == member["cls"] or first["mixins"] == member["mixins"]:
+        return "self"
+    own, other = set(member["mixins"]), set(first["mixins"])
+    d = "".join(f"-{a}" for a in sorted(own - other)) + "".join(f"+{a}" for a in sorted(other - own))
+    return d or "self"
 
 
 def key_of(trace, matched, meta):
@@ -203,8 +232,10 @@ def key_of(trace, matched, meta):
             detail = ":len"
         elif ev["diffs"]:
             d0 = ev["diffs"][0][0]
-            detail = f":diff@hdr+{d0:#x}" if d0 < 0x40 else ":diff@body"
-    return f"C01/{meta['c']}/{CLAUSE.get(name[:3], name)}/{name}{detail}/{features(meta['x'])}"
+            detail = f":diff@hdr+{d0 & ~3:#x}" if d0 < 0x40 else ":diff@body"
+    elif name == "ParseWords" and ev["load"] == [0, 0]:
+        detail = ":load=0"
+    return f"C01/{meta['c']}/{CLAUSE.get(name[:3], name)}/{name}{detail}/{features(meta['x'], meta.get('twin', 'self'))}"
 
 
 # ------------------------------------------------------------------ case selection
@@ -240,7 +271,17 @@ def sub_labels(member):
     return "recovery" if member["resolved"].startswith("mcxn") else "nbu"
 
 
-def plan(cases, comps, r, tier):
+def order_members(mem):
+    """One member per distinct (TrustZone block size, latest revision?, predecessor name?) signature first, then the others."""
+    seen, first, rest = set(), [], []
+    for m in mem:
+        sig = (B.mtz_len(m), m["revision"] == "latest", m["family"] == m["resolved"])
+        (rest if sig in seen else first).append(m)
+        seen.add(sig)
+    return first + rest
+
+
+def plan(cases, comps, r, tier, allmem):
     """Attach a member (family, target, authentication) and a route to every selected case: members rotate so that every image the
     database offers is built; custom TrustZone needs a family with preset data."""
     by_id = {c["id"]: c for c in comps}
@@ -248,18 +289,18 @@ def plan(cases, comps, r, tier):
     jobs = []
     for n, case in enumerate(cases):
         comp = by_id[case["c"]]
-        mem = comp["members"]
-        if case["x"]["tz"] == "custom":
-            mem = [m for m in mem if B.tz_len(m["resolved"]) > 0]
-            if not mem:
-                continue
-        k = turn.get(case["c"], 0)
-        turn[case["c"]] = k + 1
+        custom = case["x"]["tz"] == "custom"
+        mem = order_members([m for m in comp["members"] if B.mtz_len(m) > 0] if custom else comp["members"])
+        if not mem:
+            continue
+        k = turn.get((case["c"], custom), 0)
+        turn[(case["c"], custom)] = k + 1
         member = dict(mem[k % len(mem)])
         member["sub_labels"] = sub_labels(member)
+        member["twin"] = twin_of(member, allmem)
         x = dict(case["x"])
         if x["tz"] == "custom":
-            x["tzLen"] = B.tz_len(member["resolved"])
+            x["tzLen"] = B.mtz_len(member)
         routes = ("cfg", "ctor") if tier == "thorough" else (("cfg", "ctor")[(k // len(mem) + k) % 2],)
         for route in routes:
             jobs.append({"case": {"c": case["c"], "x": x}, "member": member, "idx": n, "route": route})
@@ -285,6 +326,15 @@ def write_tables(comps):
     return cf, kf
 
 
+def decide(traces):
+    """TLC decides every event of every trace; -> list of (trace id, event index (1-based), trace length, event name)."""
+    _, res = tlc.tv("C01", "MbiTrace", traces, heap="8g", timeout=1500)
+    stuck = res.tuples("STUCK")
+    if stuck:
+        raise Machinery(f"traces not consumed by the trace spec (harness error): {stuck[:5]}")
+    return [tuple(t) for t in res.tuples("REJ")]
+
+
 def canary(comps):
     """One real CRC image: its traces must be accepted, the same traces with one corrupted number rejected."""
     comp = next((c for c in comps if c["type"] == 5 and "TrustZone" in c["mixins"] and "LoadAddress" not in c["mixins"]), None) or \
@@ -307,9 +357,9 @@ def canary(comps):
         e = next(e for e in t["ev"] if e["ev"] == evn)
         e[field] = f(e[field])
         bad.append(t)
-    rej, _ = tlc.tv("C01", "MbiTrace", [good_h, good_p] + bad)
-    if set(rej) != {t["id"] for t in bad}:
-        raise Machinery(f"canary failed: rejected {sorted(rej)}; expected exactly the 5 corrupted traces\n{json.dumps(good_p)[:1500]}")
+    rej = decide([good_h, good_p] + bad)
+    if {r[0] for r in rej} != {t["id"] for t in bad} or len(rej) != len(bad):
+        raise Machinery(f"canary failed: rejected {sorted(rej)}; expected exactly one event of each of the 5 corrupted traces\n{json.dumps(good_p)[:1500]}")
     return f"real CRC image of {member['family']}: 2 traces accepted, 5 single-field corruptions rejected"
 
 
@@ -322,8 +372,8 @@ def run(tier):
     comps = B.compositions(mem)
     cf, kf = write_tables(comps)
     for m in mem:  # warm the database caches (TrustZone presets) before forking
-        B.tz_len(m["resolved"])
-    say(f"[C01] device database: {len(mem)} images in {len({m['family'] for m in mem})} family names, {len(comps)} distinct mixin compositions ({v.timer.s()}s)")
+        B.mtz_len(m)
+    say(f"[C01] device database: {len(mem)} images in {len({(m['family'], m['revision']) for m in mem})} (family name, revision) pairs, {len(comps)} distinct mixin compositions ({v.timer.s()}s)")
 
     # ---- MC + GEN
     g = tlc.mc("C01", "MbiMC", "MbiMC.cfg", env={"CLASS_FILE": cf, "KINDS_FILE": kf, "GEN_FULL": "1" if tier == "thorough" else "0"},
@@ -350,7 +400,7 @@ def run(tier):
             rest = [c for c in sel if json.dumps(c, sort_keys=True) not in ids]
             r.shuffle(rest)
             sel = keep + rest[: cap - len(keep)]
-    jobs = plan(sel, comps, r, tier)
+    jobs = plan(sel, comps, r, tier, mem)
     res = pmap(observe, jobs, chunksize=4)
     v.count(len(res))
     refused = [x for x in res if "refused" in x]
@@ -359,7 +409,7 @@ def run(tier):
     if len(refused) > 0.1 * len(res):
         ex = sorted({x["refused"][:100] for x in refused})[:5]
         raise Machinery(f"the builder refused {len(refused)} of {len(res)} option sets of the asserted domain: {ex}")
-    built = {(x["meta"]["member"]["family"], x["meta"]["member"]["target"], x["meta"]["member"]["auth"]) for x in done}
+    built = {(x["meta"]["member"]["family"], x["meta"]["member"]["revision"], x["meta"]["member"]["target"], x["meta"]["member"]["auth"]) for x in done}
     v.extra["images_of_database_built"] = f"{len(built)} of {len([m for m in mem if B.comp_id(m) in modelled])}"
     v.extra["refused_examples"] = sorted({x["refused"][:120] for x in refused})[:8]
     v.extra["not_modelled"] = not_modelled
@@ -376,19 +426,19 @@ def run(tier):
     nrej = 0
     for k in range(0, len(traces), 20000):
         part = traces[k:k + 20000]
-        rej, _ = tlc.tv("C01", "MbiTrace", part, heap="8g", timeout=1500)
+        rej = decide(part)
         v.traces(len(part))
-        for tid, (matched, length, evname) in rej.items():
+        for tid, at, length, evname in rej:
             t, meta = by_id[tid], metas[tid]
             if evname == "Build":
                 raise Machinery(f"case outside the algebra reached trace validation: {json.dumps(meta)[:600]}")
             nrej += 1
-            ev = t["ev"][min(matched, len(t["ev"]) - 1)]
-            v.violation(key_of(t, matched, meta),
-                        f"{meta['member']['family']} {meta['member']['target']}/{meta['member']['auth']} via {meta['route']}: event #{matched + 1} {json.dumps(ev)[:300]} "
+            ev = t["ev"][at - 1]
+            v.violation(key_of(t, at - 1, meta),
+                        f"{meta['member']['family']}:{meta['member']['revision']} {meta['member']['target']}/{meta['member']['auth']} via {meta['route']}: event #{at} {json.dumps(ev)[:300]} "
                         f"rejected for x={json.dumps(meta['x'])[:400]}",
                         {"meta": meta, "trace": t})
-    say(f"[C01] {len(traces)} traces decided by TLC, {nrej} rejected ({v.timer.s()}s)")
+    say(f"[C01] {len(traces)} traces decided by TLC, {nrej} events rejected ({v.timer.s()}s)")
     for x in (done[0], done[len(done) // 2], done[-1]):
         v.sample({"member": x["meta"]["member"], "route": x["meta"]["route"], "x": x["meta"]["x"], "header_trace": x["h"]["ev"], "parse_trace": x["p"]["ev"]})
     v.cov["rule"] = ("cases = every (composition, abstract input) state of MbiMC (payload length classes mod 4/16/512 around 0x38/0x40, tail plain / relocation "
@@ -421,19 +471,19 @@ def replay(path):
     mem = B.members()
     comps = B.compositions(mem)
     write_tables(comps)
-    member = next(m for m in mem if all(m[k] == meta["member"][k] for k in ("family", "target", "auth", "cls")))
-    member = dict(member, sub_labels=sub_labels(member))
+    member = next(m for m in mem if all(m[k] == meta["member"][k] for k in ("family", "revision", "target", "auth", "cls")))
+    member = dict(member, sub_labels=sub_labels(member), twin=twin_of(member, mem))
     res = observe({"case": {"c": meta["c"], "x": meta["x"]}, "member": member, "idx": meta["idx"], "route": meta["route"]})
     if "refused" in res:
         say(f"replay: the builder refuses this option set now: {res['refused']}")
         return 0
     traces = [dict(res["h"], id="h"), dict(res["p"], id="p")]
-    rej, _ = tlc.tv("C01", "MbiTrace", traces)
+    rej = decide(traces)
     for t in traces:
-        say(json.dumps(t["ev"])[:1500])
+        say(json.dumps(t["ev"])[:2500])
     if rej:
-        for tid, (matched, length, evname) in rej.items():
-            say(f"rejected: trace {tid} at event #{matched + 1} ({evname}); key {key_of(next(t for t in traces if t['id'] == tid), matched, dict(meta, len=res['meta']['len']))}")
+        for tid, at, length, evname in rej:
+            say(f"rejected: trace {tid} event #{at} ({evname}); key {key_of(next(t for t in traces if t['id'] == tid), at - 1, dict(meta, len=res['meta']['len']))}")
         say(f"VIOLATION property=C01 replay={path}")
         return 1
     say("replay: accepted by the spec")
